@@ -5,6 +5,7 @@ package main
 import (
 	"context"
 	"fmt"
+	"go.opentelemetry.io/otel/trace/noop"
 	"regexp"
 	"sort"
 	"strconv"
@@ -40,6 +41,11 @@ type c02Input struct {
 	Shape    string       `json:"shape"` // "log", "instant-log", "count", "count-offset", "instant-count"
 	StartNS  int64        `json:"start_ns"`
 	EndNS    int64        `json:"end_ns"`
+	// StepMS: step of the range query in ms (0 = 1 s): the window asked of the daemon does not depend on it.
+	StepMS int `json:"step_ms,omitempty"`
+	// LookbackS: the engine is built with Options.LookbackDuration = -LookbackS seconds (0 = default, 30 s): an
+	// instant query then looks that far back.
+	LookbackS int `json:"lookback_s,omitempty"`
 }
 
 // refLabels is the specification of a container's label set.
@@ -139,9 +145,15 @@ func c02Exec(in c02Input) (c02Obs, []fakedocker.LogCall) {
 		query = "count_over_time(" + sel + "[2s])"
 		params.End = params.Start
 	}
+	if in.StepMS > 0 && params.Step != 0 {
+		params.Step = time.Duration(in.StepMS) * time.Millisecond
+	}
 	s := vsched.RunMain(vsched.NewCtx(nil), func() {
 		q, _ := dockerlog.NewQuerier(fake)
 		eng := newEngine(q)
+		if in.LookbackS > 0 {
+			eng = logqlengine.NewEngine(q, logqlengine.Options{TracerProvider: noop.NewTracerProvider(), LookbackDuration: -time.Duration(in.LookbackS) * time.Second})
+		}
 		data, err := eng.Eval(context.Background(), query, params)
 		if err != nil {
 			obs.Err = err.Error()
@@ -224,6 +236,9 @@ func c02Check(r *vkit.Run, in c02Input) {
 	case "instant-log":
 		needEnd = in.StartNS
 		needStart = in.StartNS - 30*sec // default lookback; wider is acceptable
+		if in.LookbackS > 0 {
+			needStart = in.StartNS - int64(in.LookbackS)*sec
+		}
 	case "count":
 		needStart = in.StartNS - 2*sec
 	case "count-offset":
@@ -450,6 +465,17 @@ func c02Run(r *vkit.Run) {
 			for _, sh := range []string{"instant-log", "count", "count-offset", "instant-count"} {
 				one(c02Input{Ctrs: inv, Matchers: []c02Matcher{m}, Shape: sh, StartNS: 5 * sec, EndNS: 7*sec + 500000000})
 			}
+		}
+		// the step of a range query and a configured lookback of an instant query
+		all := c02Matcher{Label: "container", Op: "=~", Value: ".*"}
+		for _, step := range []int{7000, 2500, 86000} {
+			for _, te := range [][2]int64{{1 * sec, 2999999999}, {1500000000, 9 * sec}, {3 * sec, 100*sec + 1}} {
+				one(c02Input{Ctrs: inv, Matchers: []c02Matcher{all}, Shape: "log", StartNS: te[0], EndNS: te[1], StepMS: step})
+				one(c02Input{Ctrs: inv, Matchers: []c02Matcher{all}, Shape: "count", StartNS: te[0], EndNS: te[1], StepMS: step})
+			}
+		}
+		for _, lb := range []int{60, 5} {
+			one(c02Input{Ctrs: inv, Matchers: []c02Matcher{all}, Shape: "instant-log", StartNS: 100 * sec, EndNS: 100 * sec, LookbackS: lb})
 		}
 		// pairs of matchers (quick: a 1/7 lattice of the 2nd matcher, offset per inventory so that all pairs are met across inventories)
 		for a := range ms {
